@@ -128,6 +128,7 @@ func (u *executeUnit) run(r euReq) euResp {
 	if err != nil {
 		return euResp{err: err}
 	}
+	u.ctx.VerifExec(u.runner.SequenceID, u.runner.Pc, execution, u.memory)
 	log.Infoi(u.ctx, "EU", u.runner.Runner.InstructionType(), u.runner.Pc, "execution result: %+v", execution)
 	if execution.Return {
 		return euResp{isReturn: true}
@@ -140,6 +141,7 @@ func (u *executeUnit) run(r euReq) euResp {
 		return u.ExecuteWithCheckpoint(r, func(r euReq) euResp {
 			resp := u.cc.write.Cycle(ccWriteReq{r.cycle, writeAddrs, data})
 			if resp.done {
+				u.ctx.VerifStore(u.runner.SequenceID, u.execution)
 				u.Reset()
 			}
 			return euResp{}
